@@ -1,1 +1,193 @@
-//! oracle for speck — to be written from the specification
+//! Speck 2n/mn, written from Beaulieu, Shors, Smith, Treatman-Clark, Weeks, Wingers, "The Simon and Speck Families of
+//! Lightweight Block Ciphers" (ePrint 2013/404), section 4.
+//!
+//!   round:        R_k(x, y) = ((S^-a x + y) ^ k,  S^b y ^ (S^-a x + y) ^ k)
+//!   key schedule: K = (l_{m-2}, ..., l_0, k_0);  l_{i+m-1} = (k_i + S^-a l_i) ^ i;  k_{i+1} = S^b k_i ^ l_{i+m-1}
+//!   (a, b) = (7, 2) for n = 16 and (8, 3) otherwise;  T from Table 4.1 of the paper (data).
+//!
+//! One runtime-parameterised model for all ten variants: n-bit words are held in u64 and reduced mod 2^n explicitly.
+//! Byte convention (the paper gives words only): the paper's printed order -- key bytes are l_{m-2} .. l_0 k_0, block
+//! bytes are x then y, every word big-endian -- which is how the paper's test vectors read as hex strings.
+
+#[derive(Clone, Copy)]
+pub struct Params {
+    /// word size in bits
+    pub n: u32,
+    /// key words
+    pub m: usize,
+    /// rounds
+    pub t: usize,
+    pub alpha: u32,
+    pub beta: u32,
+}
+
+pub const MAX_T: usize = 34;
+pub const MAX_L: usize = 36;
+
+/// Table 4.1 (block size 2n, key size mn) -> rounds
+pub const fn params(block_bits: u32, key_bits: u32) -> Params {
+    let n = block_bits / 2;
+    let m = (key_bits / n) as usize;
+    let t = match (block_bits, key_bits) {
+        (32, 64) => 22,
+        (48, 72) => 22,
+        (48, 96) => 23,
+        (64, 96) => 26,
+        (64, 128) => 27,
+        (96, 96) => 28,
+        (96, 144) => 29,
+        (128, 128) => 32,
+        (128, 192) => 33,
+        (128, 256) => 34,
+        _ => 0,
+    };
+    let (alpha, beta) = if n == 16 { (7, 2) } else { (8, 3) };
+    Params { n, m, t, alpha, beta }
+}
+
+pub const fn mask(n: u32) -> u64 {
+    if n >= 64 {
+        u64::MAX
+    } else {
+        (1u64 << n) - 1
+    }
+}
+/// S^j: left circular shift by j (0 < j < n) of an n-bit word
+pub fn rol(x: u64, j: u32, n: u32) -> u64 {
+    let x = x & mask(n);
+    ((x << j) | (x >> (n - j))) & mask(n)
+}
+/// S^-j
+pub fn ror(x: u64, j: u32, n: u32) -> u64 {
+    let x = x & mask(n);
+    ((x >> j) | (x << (n - j))) & mask(n)
+}
+
+pub fn round(p: &Params, k: u64, x: u64, y: u64) -> (u64, u64) {
+    let x1 = (ror(x, p.alpha, p.n).wrapping_add(y & mask(p.n)) & mask(p.n)) ^ (k & mask(p.n));
+    let y1 = rol(y, p.beta, p.n) ^ x1;
+    (x1, y1)
+}
+/// R_k^-1(x, y) = (S^a((x ^ k) - S^-b(x ^ y)), S^-b(x ^ y))
+pub fn inv_round(p: &Params, k: u64, x: u64, y: u64) -> (u64, u64) {
+    let y0 = ror(x ^ y, p.beta, p.n);
+    let x0 = rol(((x ^ k) & mask(p.n)).wrapping_sub(y0) & mask(p.n), p.alpha, p.n);
+    (x0, y0)
+}
+
+/// Key words in the paper's order: kw[0] = l_{m-2}, ..., kw[m-2] = l_0, kw[m-1] = k_0.  Returns k_0 .. k_{T-1}.
+pub fn key_schedule_words(p: &Params, kw: &[u64]) -> [u64; MAX_T] {
+    key_schedule_words_with(p, kw, |k, x, y| round(p, k, x, y))
+}
+/// The same with the round function R_k as a parameter (the key schedule re-uses it: (l_{i+m-1}, k_{i+1}) = R_i(l_i, k_i)).
+pub fn key_schedule_words_with<F: Fn(u64, u64, u64) -> (u64, u64)>(p: &Params, kw: &[u64], rf: F) -> [u64; MAX_T] {
+    let mut k = [0u64; MAX_T];
+    let mut l = [0u64; MAX_L];
+    k[0] = kw[p.m - 1] & mask(p.n);
+    let mut i = 0;
+    while i + 1 < p.m {
+        l[i] = kw[p.m - 2 - i] & mask(p.n);
+        i += 1;
+    }
+    i = 0;
+    while i + 1 < p.t {
+        let (a, b) = rf(i as u64, l[i], k[i]);
+        l[i + p.m - 1] = a;
+        k[i + 1] = b;
+        i += 1;
+    }
+    k
+}
+/// Direct transcription of the key schedule formulas (used by `key_schedule_words_direct_ok` to cross-check).
+pub fn key_schedule_words_direct(p: &Params, kw: &[u64]) -> [u64; MAX_T] {
+    let mut k = [0u64; MAX_T];
+    let mut l = [0u64; MAX_L];
+    k[0] = kw[p.m - 1] & mask(p.n);
+    let mut i = 0;
+    while i + 1 < p.m {
+        l[i] = kw[p.m - 2 - i] & mask(p.n);
+        i += 1;
+    }
+    i = 0;
+    while i + 1 < p.t {
+        l[i + p.m - 1] = (k[i].wrapping_add(ror(l[i], p.alpha, p.n)) & mask(p.n)) ^ (i as u64);
+        k[i + 1] = rol(k[i], p.beta, p.n) ^ l[i + p.m - 1];
+        i += 1;
+    }
+    k
+}
+
+pub fn word_from_be(b: &[u8]) -> u64 {
+    let mut x = 0u64;
+    let mut i = 0;
+    while i < b.len() {
+        x = (x << 8) | b[i] as u64;
+        i += 1;
+    }
+    x
+}
+pub fn word_to_be(x: u64, out: &mut [u8]) {
+    let len = out.len();
+    let mut i = 0;
+    while i < len {
+        out[i] = (x >> (8 * (len - 1 - i))) as u8;
+        i += 1;
+    }
+}
+
+pub fn key_schedule(p: &Params, key: &[u8]) -> [u64; MAX_T] {
+    key_schedule_with(p, key, |k, x, y| round(p, k, x, y))
+}
+pub fn key_schedule_with<F: Fn(u64, u64, u64) -> (u64, u64)>(p: &Params, key: &[u8], rf: F) -> [u64; MAX_T] {
+    let wb = (p.n / 8) as usize;
+    assert!(key.len() == p.m * wb);
+    let mut kw = [0u64; 4];
+    let mut i = 0;
+    while i < p.m {
+        kw[i] = word_from_be(&key[i * wb..(i + 1) * wb]);
+        i += 1;
+    }
+    key_schedule_words_with(p, &kw[..p.m], rf)
+}
+
+pub fn encrypt_words(p: &Params, rk: &[u64; MAX_T], x: u64, y: u64) -> (u64, u64) {
+    encrypt_words_with(p, rk, x, y, |k, x, y| round(p, k, x, y))
+}
+pub fn encrypt_words_with<F: Fn(u64, u64, u64) -> (u64, u64)>(p: &Params, rk: &[u64; MAX_T], mut x: u64, mut y: u64, rf: F) -> (u64, u64) {
+    let mut i = 0;
+    while i < p.t {
+        (x, y) = rf(rk[i], x, y);
+        i += 1;
+    }
+    (x, y)
+}
+pub fn decrypt_words(p: &Params, rk: &[u64; MAX_T], x: u64, y: u64) -> (u64, u64) {
+    decrypt_words_with(p, rk, x, y, |k, x, y| inv_round(p, k, x, y))
+}
+pub fn decrypt_words_with<F: Fn(u64, u64, u64) -> (u64, u64)>(p: &Params, rk: &[u64; MAX_T], mut x: u64, mut y: u64, irf: F) -> (u64, u64) {
+    let mut i = p.t;
+    while i > 0 {
+        i -= 1;
+        (x, y) = irf(rk[i], x, y);
+    }
+    (x, y)
+}
+
+/// block = x || y (big-endian words), transformed in place
+pub fn crypt_block(p: &Params, rk: &[u64; MAX_T], block: &mut [u8], decrypt: bool) {
+    if decrypt {
+        crypt_block_with(p, rk, block, true, |k, x, y| inv_round(p, k, x, y))
+    } else {
+        crypt_block_with(p, rk, block, false, |k, x, y| round(p, k, x, y))
+    }
+}
+/// `f` is the round function for encryption, the inverse round function for decryption.
+pub fn crypt_block_with<F: Fn(u64, u64, u64) -> (u64, u64)>(p: &Params, rk: &[u64; MAX_T], block: &mut [u8], decrypt: bool, f: F) {
+    let wb = (p.n / 8) as usize;
+    assert!(block.len() == 2 * wb);
+    let x = word_from_be(&block[..wb]);
+    let y = word_from_be(&block[wb..]);
+    let (x, y) = if decrypt { decrypt_words_with(p, rk, x, y, f) } else { encrypt_words_with(p, rk, x, y, f) };
+    word_to_be(x, &mut block[..wb]);
+    word_to_be(y, &mut block[wb..]);
+}
